@@ -76,6 +76,8 @@ def enc_op(op):
     k = op[0]
     if k == "x":        # (canonical form only; error-path calls are never sent to the driver)
         return "x," + common.hexs(json.dumps(jsonable(list(op)), sort_keys=True))
+    if k == "cp":
+        return "cp," + op[1]
     if k == "f":
         return f"f,{_x(float(op[1]))},{'-' if op[2] is None else _x(float(op[2]))}"
     if k == "fl":
@@ -100,7 +102,7 @@ def enc_op(op):
 
 def enc_case(edges, ops):
     """(error-path calls ("x", …) are outside the model: it is given the other calls only)"""
-    return "hist\t" + ";".join(f2h(e) for e in edges) + "\t" + "|".join(enc_op(o) for o in ops if o[0] != "x")
+    return "hist\t" + ";".join(f2h(e) for e in edges) + "\t" + "|".join(enc_op(o) for o in ops if o[0] not in UNMODELLED)
 
 
 # ------------------------------------------------------------------ running the real class
@@ -152,7 +154,80 @@ def _container(vals, how):
         return np.array(vals, dtype=np.float32)
     if how in ("intarray", "int32array", "f32array"):
         return np.array(vals, dtype=float)
+    if how in SEQUENCE_KINDS:
+        return SEQUENCE_KINDS[how]([float(v) for v in vals])
     return [float(v) for v in vals]
+
+
+# other things a caller may hand in where the documentation says "list": used as a VALID representation only where the
+# code under test accepts them with the result of the list form (`sequence_support`, probed once per run), otherwise the
+# rejection is asserted (error-path call) — a one-shot iterator that is read twice shows as a wrong result
+SEQUENCE_KINDS = {"tuple": tuple, "objarray": lambda xs: np.array(xs, dtype=object), "gen": lambda xs: (x for x in xs),
+                  "iter": iter, "map": lambda xs: map(lambda x: x, xs)}
+_SUPPORT = {}
+
+
+def sequence_support():
+    """{(method, parameter): {kind: 'same' | 'raises' | 'noop' | 'different'}} — what the code under test does with a
+    tuple / numpy object array / generator / iterator / map object in place of the documented list, compared with the
+    list form on equal objects (state and written file)."""
+    if _SUPPORT:
+        return _SUPPORT
+    import os
+    import tempfile
+
+    def state(h):
+        return jsonable({k: np.array(getattr(h, k), dtype=float).tolist() for k in
+                         ("bin_edges_", "histograms_", "histograms_raw_count_", "error_", "scaling_", "systematic_error_")}
+                        | {"nb": h.number_of_bins_, "nh": h.number_of_histograms_})
+
+    def base():
+        h = Histogram()([0.0, 1.0, 2.0, 4.0])
+        h.add_value([0.5, 1.5, 1.5, 3.0])
+        h.add_histogram()
+        h.add_value([0.5, 3.0], weight=[2.0, 0.5])
+        return h
+    d = tempfile.mkdtemp()
+    lab = [{c: f"{k}{c}" for c in ALL_COLS} for k in range(2)]
+
+    def wr(h, **kw):
+        fn = os.path.join(d, "f.csv")
+        h.write_to_file(fn, **kw)
+        return open(fn).read()
+    calls = {("add_value", "value"): ([0.5, 1.5, 3.5], lambda h, x: h.add_value(x) and None),
+             ("add_value", "weight"): ([1.0, 2.0, 0.5], lambda h, x: h.add_value([0.5, 1.5, 3.5], weight=x) and None),
+             ("scale_histogram", "value"): ([2.0, 0.5, 3.0], lambda h, x: h.scale_histogram(x) and None),
+             ("set_error", "own_error"): ([2.0, 0.5, 3.0], lambda h, x: h.set_error(x) and None),
+             ("set_systematic_error", "own_error"): ([2.0, 0.5, 3.0], lambda h, x: h.set_systematic_error(x) and None),
+             ("average_weighted", "weights"): ([1.0, 3.0], lambda h, x: h.average_weighted(x) and None),
+             ("write_to_file", "hist_labels"): (lab, lambda h, x: wr(h, hist_labels=x)),
+             ("write_to_file", "columns"): (["bin_low", "distribution"], lambda h, x: wr(h, hist_labels=lab, columns=x))}
+    with warnings.catch_warnings():
+        warnings.simplefilter("ignore")
+        for key, (L, f) in calls.items():
+            h = base()
+            pre = state(h)
+            RL = (f(h, list(L)), state(h))
+            row = {}
+            for kind, K in SEQUENCE_KINDS.items():
+                h = base()
+                try:
+                    with np.errstate(all="ignore"):
+                        r = (f(h, K(list(L))), state(h))
+                    row[kind] = "same" if r == RL else "noop" if (r[1] == pre and RL[1] != pre) else "different"
+                except Exception:  # noqa: BLE001
+                    row[kind] = "raises" if state(h) == pre else "raises-changed"
+            _SUPPORT[key] = row
+    import shutil
+    shutil.rmtree(d, ignore_errors=True)
+    return _SUPPORT
+
+
+def hows_for(method, param, base=None):
+    """container representations for a list-valued argument: the list / ndarray flavours plus the other sequence kinds
+    the code under test accepts for this parameter"""
+    base = list(CONTAINER_HOWS if base is None else base)
+    return base + [k for k, v in sequence_support().get((method, param), {}).items() if v == "same"]
 
 
 def _hows(op):
@@ -220,6 +295,79 @@ def invoke(target, method, given, salt=None, form=None):
     return f(*args, **kwargs)
 
 
+def _pickle_round_trip(x):
+    import pickle
+    return pickle.loads(pickle.dumps(x))
+
+
+def _copiers():
+    import copy
+    return {"copy": copy.copy, "deepcopy": copy.deepcopy, "pickle": _pickle_round_trip}
+
+
+def maybe_copied(x, salt):
+    """an input object as it is, or (fixed by the hash of the call) its copy.copy / copy.deepcopy / pickle round trip"""
+    import zlib
+    z = zlib.crc32(repr(("input-copy", salt)).encode()) % 8
+    if z >= 3:
+        return x
+    try:
+        return list(_copiers().values())[z](x)
+    except Exception:  # noqa: BLE001 - not copyable (generators): as it is
+        return x
+
+
+class EnvironmentLeak(Exception):
+    """the call completed, but left process-wide state changed (what: list of names)"""
+
+    def __init__(self, what):
+        super().__init__("call left process-wide state changed: " + ", ".join(what))
+        self.what = what
+
+
+def in_environment(salt, call):
+    """run `call()`; for one call in three (fixed by the hash of the call) in a non-default environment — numpy error
+    state 'warn', terse numpy print options, advanced `random` / `np.random` global states — and check that the call
+    leaves `random`, `np.random`, np.geterr(), the print options and the working directory as it found them."""
+    import os
+    import random
+    import zlib
+    z = zlib.crc32(repr(("environment", salt)).encode())
+    if z % 3:
+        return call()
+    old = (np.geterr(), np.get_printoptions(), random.getstate(), np.random.get_state())
+    try:
+        np.seterr(all="warn")
+        np.set_printoptions(precision=2, threshold=3, suppress=True, linewidth=30)
+        random.seed(z)
+        random.random()
+        np.random.seed(z % 2 ** 32)
+        np.random.random(3)
+        found = (np.geterr(), np.get_printoptions(), random.getstate(), np.random.get_state(), os.getcwd())
+        exc, result = None, None
+        try:
+            result = call()
+        except Exception as e:  # noqa: BLE001
+            exc = e
+        now = (np.geterr(), np.get_printoptions(), random.getstate(), np.random.get_state(), os.getcwd())
+        names = ("numpy-error-state", "numpy-print-options", "random-state", "numpy-random-state", "working-directory")
+        leaks = [n for n, a, b in zip(names, found, now)
+                 if not (a == b if n != "numpy-random-state" else
+                         (a[0] == b[0] and np.array_equal(a[1], b[1]) and tuple(a[2:]) == tuple(b[2:])))]
+        if os.getcwd() != found[4]:
+            os.chdir(found[4])
+    finally:
+        np.seterr(**old[0])
+        np.set_printoptions(**old[1])
+        random.setstate(old[2])
+        np.random.set_state(old[3])
+    if exc is not None:
+        raise exc
+    if leaks:
+        raise EnvironmentLeak(leaks)
+    return result
+
+
 OPMETHOD = dict(f="add_value", fl="add_value", ah="add_histogram", sc="scale_histogram", sl="scale_histogram",
                 se="statistical_error", md="make_density", er="set_error", sy="set_systematic_error", ab="add_bin",
                 rb="remove_bin", av="average", aw="average_weighted", ae="average_weighted_by_error", wr="write_to_file")
@@ -232,6 +380,8 @@ def _materialise(v, tmp):
         return tuple(_materialise(x, tmp) for x in v["__tuple__"])
     if isinstance(v, dict) and set(v) == {"__array__"}:
         return np.array(v["__array__"])
+    if isinstance(v, dict) and set(v) == {"__kind__", "items"}:
+        return SEQUENCE_KINDS[v["__kind__"]]([_materialise(x, tmp) for x in v["items"]])
     if isinstance(v, dict):
         return {k: _materialise(x, tmp) for k, x in v.items()}
     if isinstance(v, list):
@@ -245,8 +395,19 @@ def _materialise(v, tmp):
     return v
 
 
+def path_form(wsalt):
+    """how the file name of a write_to_file call is given (fixed by the hash of the call)"""
+    import zlib
+    return ("absolute", "absolute", "bare", "dot-slash", "subdir")[zlib.crc32(repr(("path", wsalt)).encode()) % 5]
+
+
 def op_method(op):
+    if op[0] == "cp":
+        return {"copy": "copy.copy", "deepcopy": "copy.deepcopy", "pickle": "pickle round trip"}[op[1]]
     return op[1] if op[0] == "x" else OPMETHOD.get(op[0], op[0])
+
+
+UNMODELLED = ("x", "cp")        # calls the Lean model is not shown: they must not change the state
 
 
 def apply_op(h, op, tmpdir=None):
@@ -259,8 +420,18 @@ def apply_op(h, op, tmpdir=None):
     salt = jsonable(list(op))
 
     def call(method, **given):
-        return invoke(h, method, given, salt)
+        given = {n: (maybe_copied(v, (salt, n)) if isinstance(v, (list, tuple, dict, np.ndarray)) else v) for n, v in given.items()}
+        return in_environment(salt, lambda: invoke(h, method, given, salt))
 
+    if k == "cp":
+        # ("cp", "copy" | "deepcopy" | "pickle"): the session goes on with a copy of the object
+        c = in_environment(salt, lambda: _copiers()[op[1]](h))
+        if type(c) is not type(h):
+            raise TypeError(f"the copy is a {type(c).__name__}")
+        new = dict(c.__dict__)
+        h.__dict__.clear()
+        h.__dict__.update(new)
+        return None
     if k == "x":
         import os
         import shutil
@@ -327,21 +498,38 @@ def apply_op(h, op, tmpdir=None):
         call("average_weighted_by_error")
     elif k == "wr":
         import os
+        import shutil
         import tempfile
-        fd, fn = tempfile.mkstemp(suffix=".csv", dir=tmpdir)
-        os.close(fd)
+        import zlib
+        comment = op[3] if len(op) > 3 else ""
+        wsalt = jsonable([op[0], op[1], op[2], comment])
+        d = tempfile.mkdtemp(dir=tmpdir)
+        cwd = os.getcwd()
+        # the file name as a caller may give it: absolute / bare relative name in the working directory / './name' /
+        # relative path into an existing sub-directory
+        form = path_form(wsalt)
         try:
-            comment = op[3] if len(op) > 3 else ""
-            given = dict(filename=fn, hist_labels=op[2])
+            if form == "absolute":
+                fn = os.path.join(d, "hist.csv")
+            else:
+                os.chdir(d)
+                if form == "subdir":
+                    os.mkdir("out")
+                fn = {"bare": "hist.csv", "dot-slash": "./hist.csv", "subdir": os.path.join("out", "hist.csv")}[form]
+            given = dict(filename=fn, hist_labels=maybe_copied(op[2], (wsalt, "labels")))
             if comment != "":
                 given["comment"] = comment
             if op[1] is not None:
-                given["columns"] = list(op[1])
-            invoke(h, "write_to_file", given, jsonable([op[0], op[1], op[2], comment]))
+                given["columns"] = maybe_copied(list(op[1]), (wsalt, "columns"))
+            here = os.getcwd()
+            in_environment(wsalt, lambda: invoke(h, "write_to_file", given, wsalt))
+            if os.getcwd() != here:
+                raise EnvironmentLeak(["working-directory"])
             with open(fn, newline="") as f:        # no newline translation: header texts may hold line breaks
                 return parse_csv(f.read())
         finally:
-            os.unlink(fn)
+            os.chdir(cwd)
+            shutil.rmtree(d, ignore_errors=True)
     else:
         raise AssertionError(op)
     return None
@@ -579,18 +767,23 @@ def compare_history(ctor, ops, answer, arrays=("hist", "raw", "err", "scal", "sy
     set_precision(ctor)
     edges0, real = run_real(ctor, ops)
     obs, spec = parse_answer(answer)
-    if obs is None or len(obs) != len([o for o in ops if o[0] != "x"]):
+    if obs is None or len(obs) != len([o for o in ops if o[0] not in UNMODELLED]):
         return f"driver answered {answer[:200]}", -1, real, spec
     exact = True
     it = iter(obs)
     last = ("ok", init_obs(edges0))
     for i, (op, r) in enumerate(zip(ops, real)):
+        if op[0] == "cp":
+            d = f"raised {r[0]}" if r[0] != "ok" else compare_obs(("ok", r[1]), ("ok", last[1]), exact, arrays)
+            if d:
+                return f"after call {i}: the {op_method(op)} of the object differs from the object: {d}", i, real, spec
+            continue
         if op[0] == "x":
-            if not r[0].startswith("err"):
+            if not r[0].startswith("err") and "silent-ok" not in op[3]:
                 return None, -1, real, spec        # the call was accepted: not an error path, nothing to compare further
             d = compare_obs(("ok", r[1]), ("ok", last[1]), exact, arrays)
             if d:
-                return f"after the failed call {i} {op[1]}{op[2]} (raised {r[0]}) the object is not as before: {d}", i, real, spec
+                return f"after the failed call {i} {op[1]}{op[2]} ({r[0]}) the object is not as before: {d}", i, real, spec
             continue
         m = next(it)
         if op[0] in INEXACT_OPS:
@@ -672,7 +865,7 @@ def gen_fill(rng, edges):
     else:
         m = n if rng.random() < 0.9 else n + rng.choice([1, -1]) if n else 1
         w = ("l", [gen_weight(rng, nan_ok=rng.random() < 0.3) for _ in range(max(m, 0))])
-    return ("fl", vs, w, rng.choice(CONTAINER_HOWS) + "|" + rng.choice(CONTAINER_HOWS))
+    return ("fl", vs, w, rng.choice(hows_for("add_value", "value")) + "|" + rng.choice(hows_for("add_value", "weight")))
 
 
 def gen_scale(rng, nbins):
@@ -682,7 +875,7 @@ def gen_scale(rng, nbins):
     cs = [rng.choice([1.0, 2.0, 0.5, 0.0, 3.0, 0.25]) for _ in range(max(n, 0))]
     if rng.random() < 0.08 and cs:
         cs[rng.randrange(len(cs))] = -1.0
-    return ("sl", cs, rng.choice(CONTAINER_HOWS[:-2]))
+    return ("sl", cs, rng.choice(hows_for("scale_histogram", "value", CONTAINER_HOWS[:-2])))
 
 
 # ---- error paths
@@ -723,6 +916,29 @@ def gen_error_call(rng, edges, nh=1, methods=None, front_only=False):
         xs[pos(len(xs))] = rng.choice(bads)
         return xs
     given = None
+    # a tuple / object array / one-shot iterator where the documentation says list, for the parameters where the code
+    # under test does not take them like a list: it has to refuse them ("raises") or ignore them ("noop") — either way
+    # nothing may change
+    seqs = {"add_value": ("value", "weight"), "scale_histogram": ("value",), "set_error": ("own_error",),
+            "set_systematic_error": ("own_error",), "average_weighted": ("weights",), "write_to_file": ("hist_labels", "columns")}
+    if m in seqs and nb >= 1 and rng.random() < 0.25:
+        prm = rng.choice(seqs[m])
+        kinds = [(k_, v) for k_, v in sequence_support().get((m, prm), {}).items() if v in ("raises", "noop")]
+        if kinds:
+            kind, what = rng.choice(kinds)
+            n = nh if prm == "weights" else rng.randint(1, 4) if m == "add_value" else nb
+            items = [rng.choice([1.0, 0.5, 2.0]) for _ in range(n)]
+            full = [{c: f"h{k_}:{c}" for c in ALL_COLS} for k_ in range(nh)]
+            if m == "add_value":
+                vals = [_inside_value(rng, edges) for _ in range(n)]
+                given = [["value", {"__kind__": kind, "items": vals}]] if prm == "value" else \
+                        [["value", vals], ["weight", {"__kind__": kind, "items": items}]]
+            elif m == "write_to_file":
+                given = [["filename", "<tmpfile>"], ["hist_labels", {"__kind__": kind, "items": full} if prm == "hist_labels" else full]] + \
+                        ([["columns", {"__kind__": kind, "items": ["bin_low", "distribution"]}]] if prm == "columns" else [])
+            else:
+                given = [[prm, {"__kind__": kind, "items": items}]]
+            return ("x", m, given, ["silent-ok"] if what == "noop" else [])
     if m == "add_value" and nb >= 1:
         n = rng.randint(1, 5)
         vals = [_inside_value(rng, edges) for _ in range(n)]
@@ -889,6 +1105,8 @@ def gen_history_c09(rng, edges, density=True, errors="front"):
             ops.append(("md",))
         if errors and rng.random() < 0.1:
             ops.append(gen_error_call(rng, edges, methods=C09_ERROR_METHODS, front_only=(errors == "front")))
+        if rng.random() < 0.07:
+            ops.append(("cp", rng.choice(["copy", "deepcopy", "pickle"])))
     return ops
 
 
@@ -963,7 +1181,23 @@ def oracle_c09(ctor, ops):
         after = snapshot()
         where = dict(op_index=n, op=list(op[:3]))
         changed = not all(same(a, b) for a, b in zip(before, after))
+        if k == "cp":
+            if raised is not None or changed:
+                names = ("contents", "raw counts", "errors", "scaling", "systematic errors", "edges", "counters")
+                diff = [nm for nm, a, b in zip(names, before, after) if not same(a, b)]
+                return (f"copy:{op_method(op)}:differs-from-original",
+                        f"the {op_method(op)} of the histogram " + (f"raised {type(raised).__name__}: {raised}" if raised is not None else
+                        f"differs from the histogram in {diff}: edges {after[5].tolist()} vs {before[5].tolist()}, contents "
+                        f"{after[0].tolist()} vs {before[0].tolist()}"), where)
+            continue
+        if isinstance(raised, EnvironmentLeak):
+            return (f"environment:{'+'.join(raised.what)}:{op_method(op)}", f"{op_method(op)}: {raised}", where)
         if k == "x" and raised is None:
+            if "silent-ok" in op[3] and not changed:
+                continue        # an argument of an undocumented kind was ignored without an exception: nothing changed
+            if "silent-ok" in op[3]:
+                return (f"undocumented-argument-kind-changed-object:{op_method(op)}",
+                        f"{op_method(op)}{op[2]} is outside the documented argument types and was neither refused nor ignored", where)
             return None         # the call was accepted: not an error path; this history is not followed further
         if raised is not None and changed and k not in ("f", "fl"):
             eq = prefix_equivalent(op, edges, nb) if k in ("x", "md") else None
